@@ -664,6 +664,38 @@ func gen(rng *h.Rng, tier string, emit func(string)) {
 			}
 		}
 	}
+	// targeted: prefixes ending in 0xff (the exclusive upper bound of the prefix range carries into the
+	// previous byte) with the successor key itself stored
+	for _, x := range []byte{0x61, 0x00, 0xfe, 0x2a, 0x5b} {
+		keys := [][]byte{{x}, {x, 0xff}, {x, 0xff, 0x00}, {x, 0xff, 0xff}, {x + 1}, {x + 1, 0x00}, {x, 0xfe}, {x, 0xff, 0xff, 0x01}}
+		prefixes := [][]byte{{x, 0xff}, {x, 0xff, 0xff}, {0xff}, {x}, {x + 1}, {0xff, 0xff}}
+		starts := [][]byte{{}, {0xff}, {0x00}, {0xff, 0xff}}
+		for rep := 0; rep < 4; rep++ {
+			var ops []string
+			for i, k := range keys {
+				if rep > 0 && rng.Chance(1, 4) {
+					continue
+				}
+				ops = append(ops, "P:"+h.Hex(k)+":"+h.Hex([]byte{byte(i + 1)}))
+			}
+			for _, pf := range prefixes {
+				for _, sx := range starts {
+					if rep > 0 && rng.Chance(1, 2) {
+						continue
+					}
+					ops = append(ops, "I:"+h.Hex(pf)+":"+h.Hex(sx))
+				}
+			}
+			hist := strings.Join(ops, " ")
+			for _, prov := range []string{"mem", "pebble", "redis"} {
+				if prov == "redis" && !redisReplayable(hist) {
+					continue
+				}
+				emit(prov + " " + hist)
+				st.Inc("cases-ff-carry-" + prov)
+			}
+		}
+	}
 	h.EmitStats(emit, st)
 }
 
